@@ -28,3 +28,30 @@ def other_bits(total, exclude):
     """bit masks (as ints) of every single bit of a total-bit word outside the 1-based positions in exclude."""
     ex = set(exclude)
     return [1 << (total - p) for p in range(1, total + 1) if p not in ex]
+
+
+def explore_sequences(acc, thunks, depth, tag):
+    """Exhaustive call-sequence exploration in one process: every sequence (with repetitions) of <= depth calls over the
+    given thunks; each thunk is (label, fn) with fn() -> None | signature and carries an ABSOLUTE oracle, so any state that
+    survives a call and changes a later answer is exposed.  Sequences are concatenated (no reset in between): a failure
+    replays as the whole task in a fresh process."""
+    import itertools
+    n = len(thunks)
+    for L in range(1, depth + 1):
+        for seq in itertools.product(range(n), repeat=L):
+            for k, i in enumerate(seq):
+                acc.n += 1
+                s = thunks[i][1]()
+                if s:
+                    acc.bad(s + ":in_a_call_sequence", {"kind": "seqx", "tag": tag, "sequence": [thunks[j][0] for j in seq[:k + 1]]})
+                    break
+    acc.out.add(("seqx", tag))
+
+
+def replay_sequence(thunks, labels):
+    by = dict(thunks)
+    for lb in labels:
+        s = by[lb]()
+        if s:
+            return s + ":in_a_call_sequence"
+    return None
